@@ -201,9 +201,11 @@ _SEGM = {
 FINDING_CLASSES = {("-1", False), ("2/m", False), ("-3", True), ("-3m", True)}
 
 
-def frozen_visits(cell, laue, rhomb, smax):
+def frozen_visits(cell, laue, rhomb, smax, ties_out_except=None):
     """visit sequence of the row-walk exactly as found on the pinned tree (loop control only: it contains no
-    extinction logic).  Used solely to recognise the open finding 'row-walk early exit'; never an oracle."""
+    extinction logic).  Used solely to recognise the open finding 'row-walk early exit'; never an oracle.
+    ties_out_except: a set of hkl; lattice points whose sintl equals the bound to 1e-12 and that are not in the set are
+    taken as outside (the subject's own sintl may put them one ulp above the bound, which ends the row or layer)."""
     key = laue + "/rh" if rhomb else laue
     segm = _SEGM.get(key)
     if segm is None:
@@ -212,8 +214,11 @@ def frozen_visits(cell, laue, rhomb, smax):
     Gs = oracle.recip_metric(cell)
 
     def stl(h):
-        h = np.asarray(h, float)
-        return 0.5 * math.sqrt(max(0.0, float(h @ Gs @ h)))
+        v = np.asarray(h, float)
+        v = 0.5 * math.sqrt(max(0.0, float(v @ Gs @ v)))
+        if ties_out_except is not None and abs(v - smax * scale) <= 1e-12 * smax * scale and tuple(int(x) for x in h) not in ties_out_except:
+            return float("inf")
+        return v
     visited = set()
     first = True
     for seg in segm:
